@@ -101,6 +101,21 @@ func main() {
 		if o.Tok == "whole" {
 			cfg.Tokenizer = sem.WholeTokenizer
 		}
+		// a third tokenizer: the default one with every token renamed (marked); nothing is a token of its own text any more,
+		// number and boolean literals included
+		mark := ""
+		if o.Tok == "ws" && id%3 == 0 {
+			mark = "~"
+			o.Tok = "ws-marked"
+			cfg.Tokenizer = func(v string) []string {
+				ts := bs.BasicWhitespaceLowerTokenizer(v)
+				out := make([]string, len(ts))
+				for i, t := range ts {
+					out[i] = "~" + t
+				}
+				return out
+			}
+		}
 		switch o.Part {
 		case "keys":
 			cfg.PartitionFunc = func(row map[string]any) string {
@@ -242,7 +257,7 @@ func main() {
 						}
 					}
 					for _, t := range toks {
-						ts := sem.TokenString(t)
+						ts := mark + sem.TokenString(t)
 						carriers[deniedEntry{"t", ts}]++
 						if denies(bf.TokenBloomFilter, ts) {
 							bo.MissB++
@@ -254,7 +269,7 @@ func main() {
 						}
 					}
 					for _, ft := range fts {
-						k := sem.PathString(ft[0]) + "::" + sem.TokenString(ft[1])
+						k := sem.PathString(ft[0]) + "::" + mark + sem.TokenString(ft[1])
 						if denies(bf.FieldTokenBloomFilter, k) {
 							bo.MissB++
 						}
